@@ -1,8 +1,102 @@
-"""C05 extra step: run the real CLI built with the race detector on many small files with several
-readers and workers; a race report (or a hang) is a concrete failing schedule."""
-import os, shutil, sys
+"""C05 extra step: (1) run the real CLI built with the race detector on many small files with several
+readers and workers; a race report (or a hang) is a concrete failing schedule.  (2) trace inclusion through
+the real CLI binary: the CLI built with the tag `verif` runs its hidden command `veriftrace` (real flag
+plumbing -> batcher -> extractor -> RunAggregationLoop -> histogram renderer, event log recording, the render
+ticker sped up through the hook verifTick); the log is turned into an `atrace` case and checked by the Lean
+driver against the pipeline and aggregation-loop transition systems."""
+import os, shutil, subprocess, sys
 sys.path.insert(0, os.path.dirname(__file__))
 from common import build_rare, run, Rand
+
+# event name -> code (harness/corr/c01trace.go traceKinds)
+TRACE_KINDS = {
+    "sema.acq": "aq", "rd.start": "rs", "src.open": "so", "src.err": "se", "sync.begin": "sb",
+    "flush": "fl", "flush.eof": "fe", "sent": "st", "sync.end": "sn", "sema.rel": "rl",
+    "src.close": "sc", "rd.end": "re", "c.wait": "cw", "c.close": "cc",
+    "w.start": "ws", "w.recv": "wr", "line.m": "lm", "line.i": "li", "line.u": "lu",
+    "w.count": "wc", "w.send": "wd", "w.sent": "wt", "w.exit": "wx", "rc.close": "rc",
+    "c.recv": "cr", "c.done": "cd",
+    "t.done": "td", "t.tick": "tt", "t.locked": "tl", "t.rendered": "tr",
+    "m.signal": "ms", "m.eof": "me", "m.recv": "mr", "m.locked": "ml", "m.unlock": "mu",
+    "m.done.send": "md", "m.done.sent": "mt", "m.final.begin": "mf", "m.final.end": "mg",
+    "sample": "sa", "render.begin": "rb", "render.end": "rn",
+}
+# the classification the pipeline model's legacy configuration stands for (harnessMatcher / ignore {1} /
+# extract {0}): a line containing 'x' does not match, group 1 is the text after the first ':'
+CLI_MATCH = r"^[^x:]*(?::([^x]*))?$"
+
+
+def hexs(b):
+    return b.hex() if b else "-"
+
+
+def src_index(name):
+    base = os.path.basename(name)
+    if base[:1] in ("f", "s") and base[1:].isdigit():
+        return int(base[1:])
+    return -1
+
+
+def cli_trace(ctx, rnd, violations):
+    """One (quick) or several (thorough) traced runs of the real CLI; returns the number of runs checked."""
+    exe = os.path.join(ctx["work"], "rare-verif")
+    p = subprocess.run(["go", "build", "-tags", "verif", "-o", exe, "."], cwd=ctx["repo"], env=ctx["goenv"],
+                       stdout=subprocess.PIPE, stderr=subprocess.STDOUT, text=True, timeout=1200)
+    if p.returncode != 0:
+        raise RuntimeError("go build -tags verif of rare failed: " + p.stdout[-2000:])
+    d = os.path.join(ctx["work"], "clitrace")
+    done = 0
+    keys = [b"a", b"b", b"cc", b"x", b"k:v", b"", b"dd d"]
+    for k in range(1 if ctx["tier"] == "quick" else 8):
+        shutil.rmtree(d, ignore_errors=True)
+        os.makedirs(d)
+        inputs = []
+        for i in range(rnd.pick([1, 3, 6])):
+            data = b"".join(rnd.pick(keys) + b"\n" for _ in range(rnd.pick([0, 2, 30, 200])))
+            inputs.append(data)
+            with open(os.path.join(d, "f%04d" % i), "wb") as f:
+                f.write(data)
+        batch, buf, workers, readers = rnd.pick([1, 2, 7, 1000]), rnd.pick([1, 2, 4]), rnd.pick([1, 2, 4, 8]), rnd.pick([1, 2, 4])
+        out = os.path.join(d, "trace.txt")
+        cmd = [exe, "veriftrace", "-m", CLI_MATCH, "-i", "{1}", "-e", "{0}", "--batch", str(batch), "--batch-buffer", str(buf),
+               "--workers", str(workers), "--readers", str(readers)] + [os.path.join(d, "f%04d" % i) for i in range(len(inputs))]
+        env = dict(os.environ, RARE_VERIF_TRACE=out, RARE_VERIF_TICK_US=str(rnd.pick([200, 500, 2000])))
+        try:
+            rc, so, se = run(cmd, timeout=120, env=env)
+        except Exception as e:
+            violations.append({"key": "cli-trace-hang", "kind": "hang", "cmd": cmd, "error": str(e)})
+            continue
+        if not os.path.exists(out):
+            violations.append({"key": "cli-trace-no-log", "kind": "cli-trace", "cmd": cmd, "rc": rc, "stderr": se.decode("utf8", "replace")[-1500:],
+                               "explanation": "the traced CLI run wrote no event log"})
+            continue
+        summary, evs, gs = None, [], {}
+        for line in open(out):
+            w = line.split()
+            if w[0] == "summary":
+                summary = w[1:]
+            elif w[0] == "ev":
+                g = gs.setdefault(w[1], len(gs))
+                kind = TRACE_KINDS.get(w[2], "zz")
+                src = "x"
+                if w[3] != "-":
+                    src = w[3] if kind == "sa" else str(src_index(bytes.fromhex(w[3]).decode("utf8", "replace")))
+                evs.append("%d.%s.%s.%s.%s" % (g, kind, src, w[4], w[5]))
+        cfg = "f.%d.%d.%d.%d.0.0.0.0.0.0.0.0.0" % (batch, workers, readers, buf)
+        final = ".".join(summary[:5])
+        blob = cfg + "/" + "_".join(hexs(b) for b in inputs) + "/" + final + "-" + summary[5] + "-" + summary[6] + "/" + ("_".join(evs) if evs else ".")
+        case = "C05 atrace " + blob
+        want = "ok accepted final=%s renders=%s last=%s" % (final, summary[5], summary[6])
+        p = subprocess.run([ctx["driver"]], input=case + "\n", stdout=subprocess.PIPE, stderr=subprocess.PIPE, text=True, timeout=300)
+        got = p.stdout.strip()
+        done += 1
+        if got != want:
+            violations.append({"key": "cli-trace-rejected", "kind": "cli-trace", "cmd": cmd, "case": case[:200000], "implementation": want, "model": got,
+                               "explanation": "the event log of a real CLI run is not a path of the pipeline / aggregation-loop transition systems "
+                                              "(or its final counters differ from the model's terminal state)"})
+            break
+    shutil.rmtree(d, ignore_errors=True)
+    return done
 
 
 def run_extra(ctx):
@@ -43,7 +137,8 @@ def run_extra(ctx):
                                "explanation": "the Go race detector reported a data race in the real CLI on this run"})
             break
     shutil.rmtree(d, ignore_errors=True)
-    return {"runs": done, "violations": violations, "race_cmds": cmds[:3],
+    traced = cli_trace(ctx, rnd, violations)
+    return {"runs": done, "cli_traces_checked": traced, "violations": violations, "race_cmds": cmds[:3],
             "assumptions": ["the race detector can only exhibit races on the schedules it sees; absence of a report is not a proof (the lockset theorem is)"]}
 
 
